@@ -53,6 +53,7 @@ type IdxSite struct {
 }
 
 type Idx struct {
+	helperDepth int
 	ModelingPath string
 	iter         map[ssa.Value]IterKind
 	kind         map[ssa.Value]IntKind
@@ -652,6 +653,20 @@ func (x *Idx) setIndicesElems(fn *ssa.Function, call *ssa.Call, s ssa.Value) {
 }
 
 func (x *Idx) setIndicesElemsAt(fn *ssa.Function, call ssa.Instruction, s ssa.Value, what string) {
+	// the array may be built by a same-package helper that returns it (filterPrimitives): its elements are judged
+	// where they are appended, in the helper
+	if c, ok := s.(*ssa.Call); ok && ssau.Builtin(c) == "" {
+		if callee := c.Call.StaticCallee(); callee != nil && callee.Blocks != nil && callee.Pkg == fn.Pkg && callee != fn && isIntSlice(c.Type()) && x.helperDepth < 3 {
+			x.helperDepth++
+			for _, b := range callee.Blocks {
+				if r, ok := b.Instrs[len(b.Instrs)-1].(*ssa.Return); ok && len(r.Results) == 1 {
+					x.setIndicesElemsAt(callee, r, r.Results[0], what)
+				}
+			}
+			x.helperDepth--
+			return
+		}
+	}
 	roots := aliasRoots(s)
 	// the array may live in a struct field between its construction and the hand-off
 	fields := map[*types.Var]bool{}
@@ -683,6 +698,11 @@ func (x *Idx) setIndicesElemsAt(fn *ssa.Function, call ssa.Instruction, s ssa.Va
 	n := 0
 	judge := func(at ssa.Instruction, val ssa.Value, identity bool) {
 		n++
+		for _, prev := range x.Sites {
+			if prev.Instr == at && prev.Rule == "IDX-2" && prev.What == what {
+				return // the same helper reached from another caller
+			}
+		}
 		k := x.kind[val]
 		bad := k == KindP || k == KindK
 		detail := "element of the new index array is " + k.String() + describeVal(val)
